@@ -1,8 +1,8 @@
+\* Negative configuration: the seeded fault "lostonrestart" of Persist.tla must violate RestartRestores.
 SPECIFICATION Spec
 CONSTANTS
     Deep = FALSE
     Bug = "lostonrestart"
     DoEmit = FALSE
-INVARIANTS WriteThrough ReportsRunning TypeOK
-PROPERTIES RefusedChangesNothing RestartRestores CrashAtomic AcceptedEverywhere
+PROPERTIES RestartRestores
 VIEW View
